@@ -200,6 +200,8 @@ func runHarness(prog *ssa.Program, pkg *ssa.Package, f *ssa.Function, params map
 	sb, sa := solverCmd(solver, strongT)
 	strong := NewSolver(sb, sa...)
 	strong.Name = solver
+	strong.HardLimit = time.Duration(strongT)*time.Millisecond + 45*time.Second
+	fast.HardLimit = time.Duration(fastT)*time.Millisecond + 45*time.Second
 	fast.AbsHeavyDiv, strong.AbsHeavyDiv = absHeavyDiv, absHeavyDiv
 	if solver == "cvc5" {
 		strong.send("(set-logic ALL)")
